@@ -47,10 +47,12 @@ StepInv ==   \* name of the first property that fails in the step just taken, ""
 
 TrIter ==
   /\ IsEvent("Iter")
-  /\ \E inv \in BOOLEAN, fail \in BOOLEAN :
-       /\ Iterate(Ev.rcv, SrcOfEvt(Ev.newevt), FreeOf(Ev.wire), FreeOf(Ev.ind), inv, fail, MsgIndOf(Ev.ind), Ev.sendfail)
+  \* Evt19 is raised for an invalid frame - or for an outgoing message whose fragment generator fails
+  /\ \E inv \in BOOLEAN, fail \in BOOLEAN, src \in (IF Ev.newevt = 19 THEN {"frame", "user"} ELSE {SrcOfEvt(Ev.newevt)}) :
+       /\ Iterate(Ev.rcv, src, FreeOf(Ev.wire), FreeOf(Ev.ind), inv, fail, MsgIndOf(Ev.ind), Ev.sendfail)
+       /\ (src = "user" /\ Ev.newevt = 19) => (IF gen # <<>> THEN Head(gen).k = "BAD" ELSE uq # <<>> /\ Head(uq).k = "GEN" /\ Head(Head(uq).frags).k = "BAD")
        \* a grey frame taken as invalid must show up as Evt19, otherwise as its type's event
-       /\ (Ev.newevt # 0 /\ SrcOfEvt(Ev.newevt) = "frame") =>
+       /\ (Ev.newevt # 0 /\ src = "frame") =>
               Ev.newevt = (IF Head(stream).grey /\ inv THEN 19 ELSE EvtOfPdu(Head(stream).k))
   \* every logged field of the post-state and every output must be the specification's
   /\ st' = Ev.st
